@@ -68,6 +68,8 @@ Definition set_reg (m : list (nat * list nat)) (s : bstate) : bstate :=
 Definition set_tok (m : list nat) (s : bstate) : bstate :=
   {| lists := lists s; klock := klock s; reg := reg s; tok := m; now := now s; bths := bths s |}.
 
+(* release of a key lock *)
+Definition kdel (k : nat) (m : list (nat * nat)) : list (nat * nat) := filter (fun p => negb (Nat.eqb (fst p) k)) m.
 Definition lock_is_free (k : nat) (s : bstate) : bool := match nget k (klock s) with None => true | Some _ => false end.
 
 (* ds/list: LPush pushes the values one by one at the head, RPush at the tail *)
@@ -101,7 +103,7 @@ Definition step_run (t : nat) (s : bstate) : option bstate :=
       | BPush sd k vs, BPNotify =>
           let s1 := notify k s in
           Some (set_bth t (with_bpc x (BDone (RInt (Z.of_nat (length (lget k (lists s)))))))
-                  (set_klock (ndel k (klock s1)) s1))
+                  (set_klock (kdel k (klock s1)) s1))
       | BPop sd k, BStart =>
           if lock_is_free k s
           then match pop_one sd (lget k (lists s)) with
@@ -124,7 +126,7 @@ Definition step_run (t : nat) (s : bstate) : option bstate :=
           else None
       | BMove a b, BMNotify v =>
           let s1 := notify b s in
-          Some (set_bth t (with_bpc x (BDone (RElem (Some v)))) (set_klock (ndel b (ndel a (klock s1))) s1))
+          Some (set_bth t (with_bpc x (BDone (RElem (Some v)))) (set_klock (kdel b (kdel a (klock s1))) s1))
       | BBlock sd ks tmo, BStart =>
           Some (set_bth t {| b_cmd := b_cmd x; b_pc := BWReg 0; b_start := now s; b_deadline := b_deadline x |} s)
       | BBlock sd ks tmo, BWReg i =>
